@@ -399,8 +399,10 @@ def _run_batch(tr, wd, kernels, tag, modes=MODES, known_filter=None, excl=None, 
     return failures
 
 
-def reduce_failure(tr, wd, spec, desc, mode, tagbase, known_filter=None):
-    """by-hand shrinking of a failing program descriptor on the failing mode only"""
+def reduce_failure(tr, wd, spec, desc, mode, tagbase, known_filter=None, what=""):
+    """by-hand shrinking of a failing program descriptor on the failing mode only; a candidate is kept only if it fails the same
+    way with respect to compilation (a simplification that merely stops compiling is not a smaller instance of a wrong result)"""
+    nocompile = "does not compile" in what
     cur = desc
     budget = 40
     changed = True
@@ -413,7 +415,8 @@ def reduce_failure(tr, wd, spec, desc, mode, tagbase, known_filter=None):
             budget -= 1
             n += 1
             k = spec.render(cand, "r%d" % n)
-            if run_batch(tr, wd, [k], "%s_r%d" % (tagbase, n), modes=[mode], known_filter=known_filter, spec=spec):
+            fl = run_batch(tr, wd, [k], "%s_r%d" % (tagbase, n), modes=[mode], known_filter=known_filter, spec=spec)
+            if fl and any(("does not compile" in f["what"]) == nocompile for f in fl):
                 cur = cand
                 changed = True
                 break
@@ -535,7 +538,7 @@ def run_tv(spec, prop, tier, replay, t0):
             f = fl[0]
             desc = f["desc"]
             if ci < 3:
-                desc = reduce_failure(tr, wd, spec, desc, f["mode"], "red%d" % ci, known_filter=kfilter)
+                desc = reduce_failure(tr, wd, spec, desc, f["mode"], "red%d" % ci, known_filter=kfilter, what=f["what"])
             path = os.path.join(rep_dir, "violation_seed%d_%d.json" % (vlib.seed(), ci))
             json.dump({"desc": desc, "mode": f["mode"], "what": f["what"], "okl": spec.render(desc, "rp").okl}, open(path, "w"), indent=1)
             out.violations.append((path, "%s: %s  [%d failing (kernel, back end) pairs in this category: %s/%s]"
